@@ -215,6 +215,7 @@ def run_case(case, ctx):
         D = gen.cube((5, 6, 7), 3)
     bad = []
     outcome = None
+    paths = 0
     try:
         if is2d:
             conv.convert_segy(sgy, out, r_arg, b_arg)
@@ -257,7 +258,10 @@ def run_case(case, ctx):
     if valid and not is2d and outcome == 'faithful' and case['spelling'] == 'full':
         # the same setting through the SEG-Y route, on a cube with more than one block along the trace where that is affordable
         nz = eff[1][2] + 3 if eff[1][2] <= 1024 else 7
-        D2 = gen.cube((5, 6, nz), 4)
+        # (several plane sets of the block's own inline count, so that footprints that are not square show)
+        import zlib
+        big = eff[1][0] <= 64 and (eff[1][0] != eff[1][1] or zlib.crc32(case['id'].encode()) % 2 == 0)
+        D2 = gen.cube((2 * eff[1][0] + 1 if big else 5, 6, nz), 4)
         sgy3 = sc.file('s3.sgy')
         gen.make_segy(sgy3, D2, fmt=5)
         out2 = sc.file('o2.sgz')
@@ -265,6 +269,28 @@ def run_case(case, ctx):
             conv.convert_segy(sgy3, out2, r_arg, b_arg, reduce_iops=bool(eff[1][1] % 8))
             with SgzReader(out2) as r:
                 V2 = r.read_volume()
+                import segyio
+                with segyio.open(sgy3) as f_:
+                    for t_ in sorted({0, f_.tracecount // 2, f_.tracecount - 1}):
+                        hs = {int(k_): int(v_) for k_, v_ in f_.header[t_].items()}
+                        hz = {int(k_): int(v_) for k_, v_ in r.gen_trace_header(t_).items()}
+                        if hs != hz:
+                            outcome = 'unfaithful'
+                            bad.append({'sig': '3d:accepted-setting-unfaithful-valid', 'detail': 'SEG-Y route, rate %r blockshape %r, cube %s: header of trace %d differs in %s'
+                                        % (r_arg, b_arg, D2.shape, t_, [k_ for k_ in hs if hs[k_] != hz.get(k_)][:4])})
+                            break
+                # ... through the other access paths too (lines, slices, windows crossing block boundaries, traces): the same image
+                img2 = oracles.image(D2, eff[0])
+                if V2.tobytes() == img2.tobytes():
+                    import random as _random
+                    from .. import reads
+                    rng_ = _random.Random(case['id'])
+                    b_, k_ = reads.check_ops(r, reads.ops_3d(D2.shape, eff[1], rng_, 14), lambda op: reads.expected_3d(img2, op), tag='3d:accepted-setting-unfaithful-valid:')
+                    paths += k_
+                    for x_ in b_[:2]:
+                        outcome = 'unfaithful'
+                        x_['detail'] = 'SEG-Y route, rate %r blockshape %r, cube %s: %s' % (r_arg, b_arg, D2.shape, x_['detail'])
+                        bad.append(x_)
             if V2.tobytes() != oracles.image(D2, eff[0]).tobytes():
                 outcome = 'unfaithful'
                 bad.append({'sig': '3d:accepted-setting-unfaithful-valid', 'detail': 'SEG-Y route, rate %r blockshape %r, cube %s: volume differs from codec image'
@@ -274,7 +300,7 @@ def run_case(case, ctx):
     strata = ['dim:' + case['dim'], 'outcome:' + outcome, 'class:' + ('valid' if valid else 'invalid'), 'spelling:' + case['spelling']]
     if valid:
         strata.append('rate:%s' % eff[0])
-    return {'violations': bad, 'counters': {'outcome_' + outcome: 1, 'valid_settings' if valid else 'invalid_settings': 1}, 'strata': strata,
+    return {'violations': bad, 'counters': {'outcome_' + outcome: 1, 'valid_settings' if valid else 'invalid_settings': 1, 'access_path_reads_compared': paths}, 'strata': strata,
             'key': '%s|%s|%s' % (case['dim'], r_arg, b_arg)}
 
 
